@@ -78,7 +78,8 @@ func (cv0 *HookConfigV0) ConvertAndCheck(c *HookConfig) error {
 		monitor.WithMode(kemtypes.ModeV0)
 
 		// convert event names from legacy config.
-		eventTypes := []kemtypes.WatchEventType{}
+		// A binding without events monitors all of them: WithEventTypes fills in the defaults for nil.
+		var eventTypes []kemtypes.WatchEventType
 		for _, eventName := range kubeCfg.EventTypes {
 			switch eventName {
 			case "add":
